@@ -11,6 +11,8 @@ TRUSTED = ["DER parsing (x509-parser) is outside the model: the model works on a
            "openssl 3.5 CLI generates the certificates (plus python DER surgery for unique IDs / version 2)",
            "validation_state restated locally (Model/TrustPolicy.v) for the `never Valid/Trusted` step; the end-to-end run observes the real one",
            "hooks: cose_sign::verif_cose_sign_unchecked (skips the pre-signing profile gate), verif_hooks::c06 (passes a DER TSTInfo)"]
+# corpus/C06.jsonl: lines 1-2 are the former witnesses of F-SELFSIGNED / F-PSS-DEFAULTS (fixed by e3a439b95 / 85312f708: they must now be
+# rejected like any other violation), line 3 is the witness of F-KU-CERTSIGN (open), lines 4-5 a conforming control and an EKU violation.
 ASSUMPTIONS = ["signing time comes from a TSTInfo handed to the profile check through a hook (no TSA in the sandbox); "
                "end-to-end cases run without a time-stamp", "system clock between 2021 and 2045 (validity windows of the generated material)"]
 
@@ -301,10 +303,10 @@ SC_FAIL = ("signingCredential.invalid", "signingCredential.expired")
 
 def evaluate(ctx, cases, with_model=True):
     slim = [{k: c[k] for k in ("id", "chain", "key", "alg", "e2e", "settings", "direct")} for c in cases]
-    impl = common.run_harness("c06", slim, timeout=3600)
+    impl = K.run_cases("c06", slim)
     model = None
     if with_model:
-        model = common.coq_eval("C06", K.IMPORTS, [model_expr(c) for c in cases], shard_size=60, timeout=1800)
+        model = common.coq_eval("C06", K.IMPORTS, [model_expr(c) for c in cases], shard_size=12, timeout=1800)
     quiet_logged = bool(getattr(ctx, "facts", None) and ctx.facts["profile"].get("silent_logged"))
     stats = {"conforming": 0, "violation": 0, "unspecified": 0, "e2e_read": 0, "e2e_sign_failed": 0, "with_signing_time": 0,
              "rules": {}, "branches": {}, "states": {}}
